@@ -172,6 +172,8 @@ def enabled(w):
         ops.append(("remove_cfg_by_obj", cn))
     ops += [("add_cfg", "cfgA", 2), ("add_cfg", "cfgNew", 2), ("add_cfg", "", 2), ("add_cfg", "cfgZ", 0)]
     ops += [("clone",), ("clone_deep",), ("round_trip",)]
+    if any(f.domain == "local" for f in w.model.functions.values()):
+        ops.append(("inline",))  # the call node n3 (and whatever it was annotated with) is replaced by the function body
     return ops
 
 
@@ -211,6 +213,10 @@ def apply(w, op):
             w.model = w.model.clone(deep_copy=True)
         elif k == "round_trip":
             w.model = ir.from_proto(ir.to_proto(w.model))
+        elif k == "inline":
+            from onnx_ir.passes.common import InlinePass
+
+            w.model = InlinePass()(w.model).model
         else:
             raise KeyError(k)
         return ("ret",)
